@@ -94,7 +94,7 @@ impl Gen {
             let side = if rng.random_bool(0.5) { "buy" } else { "sell" };
             let qty = rng.random_range(1..=3);
             self.live.push((inst, cid.clone(), side.to_string(), qty));
-            json!({"k": "open", "ex": if rng.random_range(0..15) == 0 { 2 } else { world2::EX_OF[inst as usize] as i64 }, "inst": inst, "cid": cid,
+            json!({"k": "open", "ex": if rng.random_range(0..15) == 0 { world2::UNKNOWN_EX } else { world2::EX_OF[inst as usize] as i64 }, "inst": inst, "cid": cid,
                    "side": side, "qty": qty, "hasId": false})
         }).collect()
     }
@@ -114,7 +114,7 @@ impl Gen {
     }
     fn env(&mut self, rng: &mut StdRng, with_orders: bool, faults: bool) -> Value {
         let mode = |rng: &mut StdRng| if !faults { "healthy" } else { match rng.random_range(0..40) { 0 => "closed", 1 => "missing", 2 | 3 => "unhealthy", _ => "healthy" } };
-        let link = vec![mode(rng), mode(rng)];
+        let link: Vec<&str> = (0..world2::N_EX).map(|_| mode(rng)).collect();
         let (mut c, mut o) = (vec![], vec![]);
         if with_orders && rng.random_bool(0.35) {
             if rng.random_bool(0.4) {
@@ -135,8 +135,8 @@ impl Gen {
         match rng.random_range(0..100) {
             0..=10 => engine_gen::ev("Market", ex, inst, "", "", "-", 0, false, "-", vec![], nf()),
             11..=13 => engine_gen::ev("MarketNoPrice", ex, inst, "", "", "-", 0, false, "-", vec![], nf()),
-            14..=17 => engine_gen::ev("MarketReconnecting", rng.random_range(0..2), 0, "", "", "-", 0, false, "-", vec![], nf()),
-            18..=21 => engine_gen::ev("AccountReconnecting", rng.random_range(0..2), 0, "", "", "-", 0, false, "-", vec![], nf()),
+            14..=17 => engine_gen::ev("MarketReconnecting", rng.random_range(0..world2::N_EX as i64), 0, "", "", "-", 0, false, "-", vec![], nf()),
+            18..=21 => engine_gen::ev("AccountReconnecting", rng.random_range(0..world2::N_EX as i64), 0, "", "", "-", 0, false, "-", vec![], nf()),
             22..=35 => {
                 let c = live(self, rng);
                 let mut e = engine_gen::ev("OrderSnap", ex, inst, &c.1, if rng.random_bool(0.7) { "Open" } else { "Inactive" }, &c.2, c.3, false, "-", vec![], nf());
@@ -146,7 +146,7 @@ impl Gen {
             }
             36..=41 => { let c = live(self, rng); engine_gen::ev("CancelResp", ex, inst, &c.1, "", "-", 0, rng.random_bool(0.5), "-", vec![], nf()) }
             42..=55 => engine_gen::ev("Trade", ex, inst, "", "", if rng.random_bool(0.5) { "buy" } else { "sell" }, rng.random_range(1..=2), false, "-", vec![], nf()),
-            56..=60 => engine_gen::ev("Balance", rng.random_range(0..2), 0, "", "", "-", rng.random_range(0..9), false, "-", vec![], nf()),
+            56..=60 => engine_gen::ev("Balance", rng.random_range(0..world2::N_EX as i64), 0, "", "", "-", rng.random_range(0..9), false, "-", vec![], nf()),
             61..=68 => engine_gen::ev("TradingState", 0, 0, "", "", "-", 0, false, if rng.random_bool(0.6) { "Enabled" } else { "Disabled" }, vec![], nf()),
             69..=76 => { let b = self.opens(rng, 3); engine_gen::ev("SendOpens", 0, 0, "", "", "-", 0, false, "-", b, nf()) }
             77..=82 => { let b = self.cancels(rng, 3); if b.is_empty() { engine_gen::ev("Balance", 0, 0, "", "", "-", 1, false, "-", vec![], nf()) } else { engine_gen::ev("SendCancels", 0, 0, "", "", "-", 0, false, "-", b, nf()) } }
@@ -241,7 +241,7 @@ fn main() {
             "fatal" => {
                 let b = g.opens(&mut rng, 2);
                 let mut env = g.env(&mut rng, false, false);
-                env["link"] = json!(["closed", "closed"]);
+                env["link"] = json!(vec!["closed"; world2::N_EX]);
                 let mut b2 = b.clone();
                 for r in b2.iter_mut() { let i = r["inst"].as_i64().unwrap(); r["ex"] = json!(world2::EX_OF[i as usize]); }
                 items.push((engine_gen::ev("SendOpens", 0, 0, "", "", "-", 0, false, "-", b2, engine_gen::no_filter()), env));
@@ -253,7 +253,7 @@ fn main() {
                 // state-changing market event: the terminal record carries an event the replica must apply
                 items.push((engine_gen::ev("TradingState", 0, 0, "", "", "-", 0, false, "Enabled", vec![], engine_gen::no_filter()), g.env(&mut rng, false, false)));
                 let mut o = g.opens(&mut rng, 1);
-                o[0]["ex"] = json!(2); // a non-existent exchange index: unrecoverable in every runner
+                o[0]["ex"] = json!(world2::UNKNOWN_EX); // a non-existent exchange index: unrecoverable in every runner
                 let inst = rng.random_range(0..world2::N_INST as i64);
                 let mut env = g.env(&mut rng, false, false);
                 env["algoO"] = json!(o);
@@ -319,7 +319,7 @@ fn main() {
                     // make the fatal request name a non-existent exchange index instead (also unrecoverable)
                     let n = items.len();
                     if let Some(reqs) = items[n - 2].0["reqs"].as_array_mut() {
-                        for r in reqs.iter_mut() { r["ex"] = json!(2); }
+                        for r in reqs.iter_mut() { r["ex"] = json!(world2::UNKNOWN_EX); }
                     }
                 }
                 let feed = Feed { items: items.clone().into_iter(), kit_env: &install, t: 0, fed: fed.clone() };
